@@ -61,6 +61,10 @@ pub enum E {
     Index(Box<E>, Box<E>),
     Call(Box<E>, Args),
     Method(Box<E>, &'static str, Args),
+    /// `o:m<<T>>(args)`
+    MethodInst(Box<E>, &'static str, Vec<Ty>, Args),
+    /// `f<<T>>` (a prefix: it is called or indexed by the recipe around it)
+    Inst(Box<E>, Vec<Ty>),
     Table(Vec<Item>),
     Func(Vec<&'static str>, bool, Vec<S>),
     If(Box<E>, Box<E>, Vec<(E, E)>, Box<E>),
@@ -316,6 +320,8 @@ pub fn d_expr(e: &E) -> d::Expression {
         E::Index(b, k) => d::IndexExpression::new(d_prefix(b), d_expr(k)).into(),
         E::Call(f, a) => d::FunctionCall::from_prefix(d_prefix(f)).with_arguments(d_args(a)).into(),
         E::Method(o, m, a) => d::FunctionCall::from_prefix(d_prefix(o)).with_method(*m).with_arguments(d_args(a)).into(),
+        E::MethodInst(o, m, tys, a) => d::FunctionCall::from_prefix(d_prefix(o)).with_type_instantiation_method(*m, tys.iter().map(d_type).collect()).with_arguments(d_args(a)).into(),
+        E::Inst(f, tys) => d::TypeInstantiationExpression::new(d_prefix(f), tys.iter().map(d_type).collect()).into(),
         E::Table(items) => d_items(items).into(),
         E::Func(params, variadic, body) => d::FunctionExpression::new(d_block(body), params.iter().map(|p| d::TypedIdentifier::new(*p)).collect(), *variadic).into(),
         E::If(c, t, elseifs, el) => {
@@ -494,7 +500,9 @@ pub fn r_expr(e: &E) -> r::Expr {
         E::Field(b, f) => r::Expr::Field(Box::new(r_prefix(b)), f.to_string()),
         E::Index(b, k) => r::Expr::Index(Box::new(r_prefix(b)), Box::new(r_expr(k))),
         E::Call(f, a) => r::Expr::Call(Box::new(r_prefix(f)), r_args(a), r::CallArgsKind::Paren),
-        E::Method(o, m, a) => r::Expr::MethodCall(Box::new(r_prefix(o)), m.to_string(), r_args(a), r::CallArgsKind::Paren),
+        E::Method(o, m, a) => r::Expr::MethodCall(Box::new(r_prefix(o)), m.to_string(), r_args(a), r::CallArgsKind::Paren, None),
+        E::MethodInst(o, m, tys, a) => r::Expr::MethodCall(Box::new(r_prefix(o)), m.to_string(), r_args(a), r::CallArgsKind::Paren, Some(tys.iter().map(r_type).collect())),
+        E::Inst(f, tys) => r::Expr::Instantiate(Box::new(r_prefix(f)), tys.iter().map(r_type).collect()),
         E::Table(items) => r::Expr::Table(r_items(items)),
         E::Func(params, variadic, body) => r::Expr::Function(r_func(params, *variadic, body, false)),
         E::If(c, t, elseifs, el) => {
@@ -597,7 +605,18 @@ pub fn normalize_expr(e: &mut r::Expr) {
     crate::luaref::walk::map_expr(e, &mut |x| {
         match x {
             r::Expr::Name(_, pos) => *pos = 0,
-            r::Expr::Call(_, _, kind) | r::Expr::MethodCall(_, _, _, kind) => *kind = r::CallArgsKind::Paren,
+            r::Expr::Call(_, _, kind) => *kind = r::CallArgsKind::Paren,
+            r::Expr::MethodCall(_, _, _, kind, tys) => {
+                *kind = r::CallArgsKind::Paren;
+                for t in tys.iter_mut().flatten() {
+                    normalize_type(t);
+                }
+            }
+            r::Expr::Instantiate(_, tys) => {
+                for t in tys.iter_mut() {
+                    normalize_type(t);
+                }
+            }
             r::Expr::Cast(_, t) => normalize_type(t),
             r::Expr::Function(body) => normalize_body(body),
             _ => {}
